@@ -42,6 +42,13 @@ pub enum Ty {
 }
 
 impl Ty {
+    /// Lean namespace of the map operations for this map type (`RustSem.Map`: integer keys, `RustSem.AMap`: other keys)
+    pub fn map_ns(&self) -> &'static str {
+        match self {
+            Ty::Map(k, _, _) if !k.is_int() => "RustSem.AMap",
+            _ => "RustSem.Map",
+        }
+    }
     pub fn u8() -> Ty {
         Ty::Int(8)
     }
